@@ -309,6 +309,83 @@ def cell_counternull(chk, drv, est, se, sided):
               dict(case, alphas=[a1, a2], p=[p1, p2]))
 
 
+# ----------------------------------------------------------------------------- interaction_contrast_ratio (delta method)
+GRID_ICR = [0.001, 0.049999, 0.05, 0.050001, 0.2, 0.5, 0.9]
+
+
+def cell_icr(chk, drv, data_seed, n):
+    """ICR with the delta-method interval on a simulated data set (binary exposure A, modifier M, outcome Y, logistic
+    model).  The reference fit is made by the harness itself with the documented design (exposure among the unmodified,
+    modifier among the unexposed, both): its coefficients and covariance feed the generated definition (K) and give the
+    standard error for the C06 predicates (D)."""
+    import statsmodels.api as sm
+    import statsmodels.formula.api as smf
+    import zepid
+    r = np.random.default_rng(data_seed)
+    a = r.binomial(1, 0.5, size=n)
+    m = r.binomial(1, 0.45, size=n)
+    y = r.binomial(1, 1 / (1 + np.exp(-(-1.2 + 0.5 * a + 0.4 * m + 0.5 * a * m))))
+    df = pd.DataFrame({'A': a, 'M': m, 'Y': y})
+    ref = df.copy()
+    ref['_A'] = np.where(ref['M'] == 0, ref['A'], 0)
+    ref['_M'] = np.where(ref['A'] == 0, ref['M'], 0)
+    with warnings.catch_warnings():
+        warnings.simplefilter('ignore')
+        fit = smf.glm('Y ~ _A + _M + A:M', ref, family=sm.families.family.Binomial()).fit()
+    names = ['_A', '_M', 'A:M']
+    b = [float(fit.params[k]) for k in names]
+    cov = fit.cov_params()
+    v = [float(cov.loc[i][j]) for i, j in (('_A', '_A'), ('_M', '_M'), ('A:M', 'A:M'), ('_A', '_M'), ('_A', 'A:M'),
+                                           ('_M', 'A:M'))]
+    chk.h_checked += 1
+    if not (fit.converged and all(math.isfinite(x) for x in b + v)):
+        chk.discard('reference GLM for the interaction contrast ratio did not converge')
+        return
+    e10, e01, e11 = (math.exp(x) for x in b)
+    var = e10 ** 2 * v[0] + e01 ** 2 * v[1] + e11 ** 2 * v[2] + 2 * e10 * e01 * v[3] - 2 * e10 * e11 * v[4] \
+        - 2 * e01 * e11 * v[5]
+    case = {'data_seed': data_seed, 'n': n, 'data_hash': hash((data_seed, n)), 'reference': {'coef': b, 'cov': v},
+            'replay': rp('icr', data_seed=data_seed, n=n)}
+    recs = []
+    for alpha in GRID_ICR:
+        res = call(zepid.interaction_contrast_ratio, df, exposure='A', outcome='Y', modifier='M', regression='logit',
+                   ci='delta', alpha=alpha, print_results=False)
+        c = dict(case, alpha=alpha, impl=str(res[:2]))
+        chk.case(c, ('icr', data_seed, n, alpha), sample=c if chk.evals % 37 == 0 else None)
+        if res[0] != 'ok':
+            chk.d(False, 'interaction_contrast_ratio runs on a data set its reference model fits', c)
+            continue
+        icr, lo, hi = (float(x) for x in res[1])
+        if drv is not None:
+            rep, line = drv.ask('icr', b=enc_list(b, fx), v=enc_list(v, fx), alpha=fx(alpha), px=fx(1 - alpha / 2),
+                                pz=fx(z_of(alpha)))
+            # the function refits the same GLM: its coefficients equal the reference's to solver precision
+            ok = rep['status'] == 'ok' and all(close(unfx(rep[k]), w, rtol=1e-8, atol=1e-10)
+                                              for k, w in zip(('point', 'lower', 'upper'), (icr, lo, hi)))
+            chk.k(ok, 'generated interaction_contrast_ratio (delta) vs implementation', {'case': c, 'model': rep, 'line': line})
+        chk.d(close(icr, e11 - e10 - e01 + 1, rtol=1e-8, atol=1e-10), 'ICR = RR11 - RR10 - RR01 + 1 of the documented model',
+              dict(c, got=icr, want=e11 - e10 - e01 + 1))
+        chk.d(var >= 0 and close((hi - lo) / 2, z_of(alpha) * math.sqrt(max(var, 0.0)), rtol=1e-7, atol=1e-10),
+              'ICR half-width = norm.ppf(1-alpha/2) * delta-method standard error', dict(c, got=(hi - lo) / 2,
+                                                                                        want=z_of(alpha) * math.sqrt(max(var, 0.0))))
+        # the se for the interval predicates is the one implied by the function's own first interval (it reports none)
+        recs.append({'alpha': alpha, 'est': icr, 'se': math.sqrt(max(var, 0.0)), 'lcl': lo, 'ucl': hi})
+    chk.count('icr:delta')
+    # limits = estimate -/+ z*se with the reference se (1e-10 would be tighter than the two GLM fits agree): own tolerance
+    for r_ in recs:
+        z = z_of(r_['alpha'])
+        tol = 1e-7 * (abs(r_['est']) + z * r_['se'])
+        chk.d(abs(r_['lcl'] - (r_['est'] - z * r_['se'])) <= tol and abs(r_['ucl'] - (r_['est'] + z * r_['se'])) <= tol,
+              'interaction_contrast_ratio: limits = estimate -/+ norm.ppf(1-alpha/2)*se on the linear scale', dict(case, record=r_))
+        chk.d(r_['lcl'] <= r_['est'] <= r_['ucl'], 'interaction_contrast_ratio: interval contains the estimate',
+              dict(case, record=r_))
+    for r_, t_ in zip(recs, recs[1:]):
+        chk.d(close(r_['est'], t_['est'], rtol=1e-12, atol=0), 'interaction_contrast_ratio: estimate does not depend on alpha',
+              dict(case, first=r_, other=t_))
+        chk.d(r_['lcl'] <= t_['lcl'] + 1e-12 and t_['ucl'] <= r_['ucl'] + 1e-12,
+              'interaction_contrast_ratio: intervals are nested in alpha', dict(case, wider_alpha=r_, narrower_alpha=t_))
+
+
 # ----------------------------------------------------------------------------- diagnostic classes
 DIAG = {'Sensitivity': ('Se', [('se_', 'Sensitivity', 'SD(Se)', 'Se_LCL', 'Se_UCL')]),
         'Specificity': ('Sp', [('sp_', 'Specificity', 'SD(Sp)', 'Sp_LCL', 'Sp_UCL')]),
@@ -486,6 +563,9 @@ def stream_c06(chk, drv, rng, tier):
         est, se = float(np.round(rng.normal(0, 0.4), 4)), float(np.round(rng.uniform(0.05, 0.5), 4))
         for sided in ('two', 'upper', 'lower', 'both'):
             cell_counternull(chk, drv, est, se, sided)
+    # interaction_contrast_ratio, delta-method interval
+    for _ in range(2 if quick else 10):
+        cell_icr(chk, drv, int(rng.integers(0, 2 ** 31)), int(rng.choice([400, 900])))
     # the diagnostic classes' result tables across alpha
     for _ in range(2 if quick else 12):
         cell_diag_ci(chk, drv, gen_diag_frame(rng))
@@ -506,4 +586,4 @@ def stream_c07(chk, drv, rng, tier):
 
 
 CELLS = {'sens': cell_sens, 'conv': cell_conv, 'scalar': cell_scalar, 'screening': cell_screening, 'rubins': cell_rubins,
-         'semibayes': cell_semibayes, 'counternull': cell_counternull, 'diag': cell_diag, 'diag_ci': cell_diag_ci}
+         'semibayes': cell_semibayes, 'counternull': cell_counternull, 'icr': cell_icr, 'diag': cell_diag, 'diag_ci': cell_diag_ci}
